@@ -6,8 +6,9 @@ The life-cycle machine of `Model/C12.lean` is one machine with four switches (`C
 subsystems.  The invariants below are proved for **every** switch setting and **every** operation sequence
 (define / redefine at file level or at run time, any start order of the new subsystem's managers, delete, unload/reload,
 any number of contexts).  Where the code leaves the property, a `_cex` theorem exhibits the reachable sequence
-(open findings C12-F1, F4, F5, F6) and the positive theorem states the fragment that does hold.  The two repairs made in
-/repo (C12-F2: a name given twice is registered once; C12-F3: the new subsystem registers under the global-context name)
+(open findings C12-F1, F5b, F6) and the positive theorem states the fragment that does hold.  The four repairs made in
+/repo (C12-F2: a name given twice is registered once; C12-F3: the new subsystem registers under the global-context name;
+C12-F4: a manager whose function died before the delayed start is discarded; C12-F5: managers start in definition order)
 are switches whose current values are extracted from the source (`C12_cfg_current`); the former counterexamples are kept
 as `_regress` theorems about `legacyPreFix` / `newPreFix`.
 -/
@@ -30,10 +31,11 @@ theorem C12_count_inv (cfg : Cfg) (ops : List Op) (k : Svc) :
   · simp only [registered]; rw [h1]; simp
   · rw [h2]; simp
 
-/-- **The working tree contains both repairs**: the switch values extracted from `trigger_init` and
-`ServiceDecorator.start` are the repaired ones (undoing a repair in the source makes this theorem fail). -/
+/-- **The working tree contains all four repairs**: the switch values extracted from `trigger_init`,
+`ServiceDecorator.start`, `on_func_var_deleted` and `GlobalContext.start` are the repaired ones (undoing a repair in the source makes this theorem fail). -/
 theorem C12_cfg_current :
-    legacyCfg = ⟨true, false, false, false, false, true⟩ ∧ newCfg = ⟨false, false, true, true, true, false⟩ := by decide
+    legacyCfg = ⟨true, false, false, false, false, true, false, false⟩ ∧
+    newCfg = ⟨false, false, true, true, true, false, true, true⟩ := by decide
 
 /-- **Exact counting in both subsystems as they are now**: for every operation sequence the count of every service is
 exactly the number of registrations the live holders will give back (legacy: the holders are the live functions,
@@ -65,12 +67,12 @@ theorem C12_count_exact_partial (cfg : Cfg) (hd : cfg.delayTopLevel = false) (op
   exact key ops {} (inv_init cfg) (fun k => by simp [trackedCount, cntOf, aget]) hn k
 
 /-- **In the legacy subsystem the holders are exactly live functions**: after any operation sequence every holder is
-bound to its global variable and running – so the counts above count declarations of *live* functions.  (In the new
-subsystem a manager can outlive its function: `C12_redefined_at_load_cex`.) -/
+bound to its global variable and running – so the counts above count declarations of *live* functions.  (For the new
+subsystem see `C12_holders_bound`.) -/
 theorem C12_legacy_holders_live (cfg : Cfg) (hd : cfg.delayTopLevel = false) (ops : List Op) (h : Holder)
     (hm : h ∈ (run cfg {} ops).holders) : h.bound = true ∧ h.status = .running := by
   have keep : ∀ (ctx var : String) (hs : List Holder), (∀ x ∈ hs, x.bound = true ∧ x.status = .running) →
-      ∀ x ∈ unbindHolders ctx var hs, x ∈ hs := by
+      ∀ x ∈ unbindHolders cfg ctx var hs, x ∈ hs := by
     intro ctx var hs
     induction hs with
     | nil => intro _ x hx; simp [unbindHolders] at hx
@@ -109,6 +111,102 @@ theorem C12_legacy_holders_live (cfg : Cfg) (hd : cfg.delayTopLevel = false) (op
             subst e; simp [newHolder]
           · simp at e
   exact key ops {} (by simp) h hm
+
+/-- **Every holder belongs to a live function – in both subsystems as they are now.**  Since a manager whose function
+dies before the delayed start is discarded (`cfg.dropDelayed`), every holder – running or still waiting for
+`GlobalContext.start()` – is bound to its global variable after any operation sequence; no manager outlives its
+function any more (`C12_regress_redefined_at_load` is the pre-fix witness).  Promoted from `C12_legacy_holders_live`. -/
+theorem C12_holders_bound (cfg : Cfg) (hc : cfg.dropDelayed = true ∨ cfg.delayTopLevel = false) (ops : List Op)
+    (h : Holder) (hm : h ∈ (run cfg {} ops).holders) : h.bound = true := by
+  rcases hc with hc | hc
+  rotate_left
+  · exact (C12_legacy_holders_live cfg hc ops h hm).1
+  have keep : ∀ (ctx var : String) (hs : List Holder), ∀ x ∈ unbindHolders cfg ctx var hs, x ∈ hs := by
+    intro ctx var hs
+    induction hs with
+    | nil => intro x hx; simp [unbindHolders] at hx
+    | cons y ys ih =>
+      intro x hx
+      by_cases hv : isVar ctx var y = true
+      · have hn : dropHolder cfg y = none := by
+          rw [dropHolder_eq]; simp [released, hc]
+        simp only [unbindHolders, hv, if_true, hn, Option.toList_none, List.nil_append] at hx
+        exact List.mem_cons_of_mem _ (ih x hx)
+      · simp only [unbindHolders, hv, Bool.false_eq_true, if_false, List.mem_cons] at hx
+        rcases hx with e | e
+        · simp [e]
+        · exact List.mem_cons_of_mem _ (ih x e)
+  have ev : ∀ (r : Reg) (ctx : String) (g : Nat) (hs : List Holder), (∀ x ∈ hs, x.bound = true) →
+      ∀ x ∈ eventStepHolders cfg r ctx g hs, x.bound = true := by
+    intro r ctx g hs
+    induction hs with
+    | nil => intro _ x hx; simp [eventStepHolders] at hx
+    | cons y ys ih =>
+      intro hp x hx
+      by_cases hd : isDelayed ctx g y = true
+      · simp only [eventStepHolders, hd, if_true, List.mem_append] at hx
+        rcases hx with e | e
+        · have hy := hp y (by simp)
+          unfold eventHolder at e
+          split at e
+          · simp only [Option.toList_some, List.mem_singleton] at e; subst e; exact hy
+          · split at e
+            · simp only [Option.toList_some, List.mem_singleton] at e; subst e; exact hy
+            · split at e
+              · simp only [Option.toList_some, List.mem_singleton] at e; subst e; exact hy
+              · simp at e
+        · exact hp x (by simp [e])
+      · simp only [eventStepHolders, hd, Bool.false_eq_true, if_false, List.mem_cons] at hx
+        rcases hx with e | e
+        · subst e; exact hp _ (by simp)
+        · exact ih (fun z hz => hp z (by simp [hz])) x e
+  have evs : ∀ (ctx : String) (gs : List Nat) (st : MState), (∀ x ∈ st.holders, x.bound = true) →
+      ∀ x ∈ (startEvents cfg ctx st gs).holders, x.bound = true := by
+    intro ctx gs
+    induction gs with
+    | nil => intro st hp; exact hp
+    | cons g gs ih => intro st hp; simp only [startEvents]; exact ih _ (ev st.reg ctx g st.holders hp)
+  have key : ∀ (ops : List Op) (st : MState), (∀ x ∈ st.holders, x.bound = true) →
+      ∀ x ∈ (run cfg st ops).holders, x.bound = true := by
+    intro ops
+    induction ops with
+    | nil => intro st hp; exact hp
+    | cons op ops ih =>
+      intro st hp
+      simp only [run]
+      apply ih
+      cases op with
+      | start ctx events =>
+        simp only [step]
+        split
+        · exact evs ctx events st hp
+        · exact hp
+      | delete ctx var => intro x hx; exact hp x (keep ctx var _ x hx)
+      | unload ctx => intro x hx; exact hp x (List.mem_filter.mp hx).1
+      | define ctx fn var gen decl =>
+        intro x hx
+        simp only [step, defineStep] at hx
+        split at hx
+        · rcases List.mem_append.mp hx with e | e
+          · exact hp x (keep ctx var _ x e)
+          · simp only [List.mem_singleton] at e; subst e; rfl
+        · rcases List.mem_append.mp hx with e | e
+          · exact hp x (keep ctx var _ x e)
+          · simp only [startHolder] at e
+            split at e
+            · simp only [Option.toList_some, List.mem_singleton] at e
+              subst e; simp [newHolder]
+            · simp at e
+  exact key ops {} (by simp) h hm
+
+/-- **The delayed managers are started in definition order** (since the repair of `GlobalContext.start`): a start whose
+observed registration order is admitted by the model begins the managers of the context in the order in which their
+functions were defined (the first registration of each manager; later decorators of a manager may interleave). -/
+theorem C12_start_order_admitted (cfg : Cfg) (hd : cfg.delayTopLevel = true) (ho : cfg.orderedStart = true)
+    (st : MState) (ctx : String) (events : List Nat) (ha : (step cfg st (.start ctx events)).inadm = false) :
+    events.eraseDups = delayedGens ctx st.holders := by
+  simp only [step, hd, if_true, ho, Bool.true_and, Bool.or_eq_false_iff, Bool.not_eq_false'] at ha
+  simpa [startOrderOK] using ha.2
 
 /-- **`service_remove` is only ever reached with a positive count** – the `cnt ≤ 1` branch that would un-register a
 never-counted key is unreachable from the two life-cycles (every op sequence, both subsystems). -/
@@ -168,8 +266,8 @@ theorem C12_latest_after_define (cfg : Cfg) (ops : List Op) (ctx : String) (fn :
   have hu : (acquireAll cfg (ownerFor cfg ctx fn) gen st.reg decl []).reg.underflow = false := by rw [q2]; exact hi.noUnder
   have pre : ∀ k, trackedCount st.holders k ≤ cntOf (acquireAll cfg (ownerFor cfg ctx fn) gen st.reg decl []).reg k := by
     intro k; have := hi.cntGe k; rw [q3]; omega
-  obtain ⟨_, _, a3, a4, _, a6⟩ := unbind_spec ctx var st.holders _ q1 hu pre
-  have hpos : cntOf (unbindReg (acquireAll cfg (ownerFor cfg ctx fn) gen st.reg decl []).reg ctx var st.holders) k > 0 := by
+  obtain ⟨_, _, a3, a4, _, a6⟩ := unbind_spec cfg ctx var st.holders _ q1 hu pre
+  have hpos : cntOf (unbindReg cfg (acquireAll cfg (ownerFor cfg ctx fn) gen st.reg decl []).reg ctx var st.holders) k > 0 := by
     have c1 := List.count_pos_iff.mpr t1
     have h3 := a3 k
     have h6 := a6 k
@@ -285,18 +383,40 @@ theorem C12_evaluator_owner_regress :
     aget s1 (run newCfg {} ops).reg.handler = some ⟨2, .none⟩ ∧
     aget s1 (run legacyCfg {} ops).reg.handler = some ⟨2, .none⟩ := by decide
 
-/-- **F4, new**: a file defines the same function twice: the manager of the first (dead) definition is still started by
-`GlobalContext.start()`; deleting the function afterwards leaves the service registered. -/
-theorem C12_redefined_at_load_cex :
-    let ops := [Op.define "a" none "f" 1 [(s1, .none)], .define "a" none "f" 2 [(s1, .none)], .start "a" [1, 2],
-                .delete "a" "f"]
-    registered (run newCfg {} ops).reg s1 = true ∧ (run newCfg {} ops).inadm = false ∧
-    sRegistered (sRun [] ops) s1 = false ∧ registered (run legacyCfg {} ops).reg s1 = false := by decide
+/-- **F4 – regression witness (new)**: before the repair, when a file defined the same function twice, the manager of the
+first (dead) definition was still started by `GlobalContext.start()`; deleting the function afterwards left the service
+registered.  With the repair the dead manager is discarded: only the live definition is started (the old schedule
+`[1, 2]` is not admitted any more) and nothing is left after the delete. -/
+theorem C12_regress_redefined_at_load :
+    let defs := [Op.define "a" none "f" 1 [(s1, .none)], .define "a" none "f" 2 [(s1, .none)]]
+    let old := defs ++ [.start "a" [1, 2], .delete "a" "f"]
+    let now := defs ++ [.start "a" [2], .delete "a" "f"]
+    registered (run newPreFix {} old).reg s1 = true ∧ (run newPreFix {} old).inadm = false ∧
+    sRegistered (sRun [] old) s1 = false ∧
+    (run newCfg {} old).inadm = true ∧
+    registered (run newCfg {} now).reg s1 = false ∧ (run newCfg {} now).inadm = false ∧
+    cntOf (run newCfg {} (defs ++ [.start "a" [2]])).reg s1 = 1 ∧
+    registered (run legacyCfg {} old).reg s1 = false := by decide
 
-/-- **F5, new**: two functions of one file declare the same service; the managers are started in set order – when the
-older one happens to start last, Home Assistant calls the older definition. -/
-theorem C12_start_order_cex :
-    let ops := [Op.define "a" none "f" 1 [(s1, .optional)], .define "a" none "g" 2 [(s1, .only)], .start "a" [2, 1]]
+/-- **F5 – regression witness (new)**: before the repair two functions of one file declaring the same service were
+started in set order – when the older one happened to start last (`[2, 1]`), Home Assistant called the older definition.
+With the repair that schedule is not admitted; in definition order the most recent definition is called. -/
+theorem C12_regress_start_order :
+    let defs := [Op.define "a" none "f" 1 [(s1, .optional)], .define "a" none "g" 2 [(s1, .only)]]
+    aget s1 (run newPreFix {} (defs ++ [.start "a" [2, 1]])).reg.handler = some ⟨1, .optional⟩ ∧
+    (run newPreFix {} (defs ++ [.start "a" [2, 1]])).inadm = false ∧
+    sHandler (sRun [] (defs ++ [.start "a" [2, 1]])) s1 = some ⟨2, .only⟩ ∧
+    (run newCfg {} (defs ++ [.start "a" [2, 1]])).inadm = true ∧
+    aget s1 (run newCfg {} (defs ++ [.start "a" [1, 2]])).reg.handler = some ⟨2, .only⟩ ∧
+    (run newCfg {} (defs ++ [.start "a" [1, 2]])).inadm = false := by decide
+
+/-- **F5b (open), new – what the definition-order repair leaves**: the start tasks of the managers run concurrently and a
+manager awaits between its decorators; an earlier function that declares the shared service as its *second* decorator
+may register it after the later function did (`[1, 2, 1]` is admitted: the managers *begin* in definition order) – Home
+Assistant then calls the older definition. -/
+theorem C12_start_interleave_cex :
+    let ops := [Op.define "a" none "f" 1 [("test.s3", .none), (s1, .optional)], .define "a" none "g" 2 [(s1, .only)],
+                .start "a" [1, 2, 1]]
     aget s1 (run newCfg {} ops).reg.handler = some ⟨1, .optional⟩ ∧ (run newCfg {} ops).inadm = false ∧
     sHandler (sRun [] ops) s1 = some ⟨2, .only⟩ := by decide
 
